@@ -241,6 +241,7 @@ func (ft *fnTrans) run() {
 		ft.loopStep(ft.loops[h])
 	}
 	// candidate models of failed obligations can be run on the real code when the inputs are plain values
+	vc.replayGlobalsFrom = len(vc.globals)
 	ft.buildReplayPlan(entryPos, reqTerms)
 	for _, ob := range vc.obls {
 		ob.plan = vc.replay
@@ -707,6 +708,13 @@ func evalModItem(vc *VC, env *Env, m Clause) []modItem {
 					r = ""
 				}
 				return []modItem{{comp: vc.compElems(u.Elem()), ref: r, src: m.Src}}
+			}
+			if ref, u, ok := env.mapLike(v); ok {
+				// ordered map modelled as an abstract map
+				if anyRef {
+					ref = ""
+				}
+				return []modItem{{comp: vc.compMapDom(u), ref: ref, src: m.Src}, {comp: vc.compMapVal(u), ref: ref, src: m.Src}}
 			}
 			fail("elems of non-map/slice")
 		}
